@@ -652,7 +652,11 @@ theorem combine_loop (preserve : Bool) :
         simp only [hcs', if_false, Model.combineLoop, hz]
         have hset : ∀ v : Int, listSetLast ne v = .ok (endsOf tail.reverse ++ [v]) := by
           intro v
-          simp [listSetLast, hne, endsOf]
+          have hne' : ne = endsOf tail.reverse ++ [(last.2 : Int)] := by simp [hne, endsOf]
+          rw [hne']
+          cases hx : endsOf tail.reverse ++ [(last.2 : Int)] with
+          | nil => simp at hx
+          | cons y ys => simp only [listSetLast]; rw [← hx]; simp
         have hmax : max (last.2 : Int) (b.2 : Int) = ((max last.2 b.2 : Nat) : Int) := by omega
         cases preserve with
         | true =>
